@@ -485,7 +485,7 @@ func driver(seed uint64, n int, outV, outJSON string, _ []string) {
 				b := blobs[bi]
 				hash := b.hash
 				size := int64(len(b.data))
-				switch r.Intn(8) {
+				switch r.Intn(9) {
 				case 0:
 					size = -1
 				case 1:
@@ -496,6 +496,8 @@ func driver(seed uint64, n int, outV, outJSON string, _ []string) {
 					if kind != cache.CAS {
 						size = -1
 					}
+				case 4:
+					size = -5 // invalid: must be refused, and must not disturb the entry
 				}
 				if kind != cache.CAS && r.Chance(60) {
 					size = -1
@@ -650,6 +652,11 @@ func driver(seed uint64, n int, outV, outJSON string, _ []string) {
 					}
 					if fetched && g.claimed > maxProxy {
 						failed("C18: object larger than max_proxy_blob_size served from the backend")
+					}
+				}
+				if _, was := lookup(before, key); was && !fetched {
+					if _, still := lookup(after, key); !still {
+						failed(fmt.Sprintf("C07: a read (size=%d, off=%d) removed the intact entry %s from the cache", size, off, key))
 					}
 				}
 				if g.kind != "miss" && fetched && (g.kind == "err" || g.delivered != g.full || g.berr || g.claimed != g.logical) {
